@@ -108,4 +108,12 @@ instance (H : Hierarchy) : Decidable (NoConflict H) := by
   unfold NoConflict
   infer_instance
 
+/-- The property for one class table: for every class of the table, used bare
+    or with any arguments, and every field id, the type the resolver hands to
+    the loader/dumper machinery is the declared type (both are `none` exactly
+    when the class has no such field). -/
+def ResolveEqSpec (H : Hierarchy) : Prop :=
+  ∀ (tgt : Base), tgt.cls < H.classes.length → ∀ (k : Key),
+    (resolve H tgt).lookup k = declaredType H tgt k
+
 end Adaptix.Generic
